@@ -36,7 +36,7 @@ def contract(cls):
     return cls
 
 
-def check(name, cond):
+def check(name, cond, generalize=None):
     _rec.checks.append((str(name), bool(cond)))
 
 
@@ -116,6 +116,19 @@ class ModelSym:
         self.used[name] = v
         return v
 
+    def sbv(self, name, width, lo=None, hi=None):
+        if self.model is not None:
+            v = int(self.model.get(name, 0)) & ((1 << width) - 1)
+            v = v - (1 << width) if v >> (width - 1) else v
+        else:
+            lo = -(1 << (width - 1)) if lo is None else lo
+            hi = (1 << (width - 1)) - 1 if hi is None else hi
+            # mostly small magnitudes, sometimes anywhere in the range
+            r = random.Random(f"{self.seed}:{name}:k").randint(0, 2)
+            v = self._rand(name, lo, hi) if r == 0 else self._rand(name, max(lo, -200), min(hi, 200))
+        self.used[name] = v
+        return v
+
 
 def uf(name, *args):
     raise SkipCase()
@@ -190,8 +203,22 @@ def _den_op(op, x, ev):
         return ev(op.lhs) | ev(op.rhs)
     if isinstance(op, arith.AndIOp):
         return ev(op.lhs) & ev(op.rhs)
-    if isinstance(op, (arith.IndexCastOp, arith.ExtUIOp, arith.ExtSIOp)):
+    if isinstance(op, arith.ExtSIOp):
+        return _sgn(ev(op.input), op.input.type.width.data)
+    if isinstance(op, (arith.IndexCastOp, arith.ExtUIOp, arith.TruncIOp)):
         return ev(op.input)
+    if isinstance(op, arith.ShRUIOp):
+        w = op.lhs.type.width.data
+        return bv_lshr(ev(op.lhs), ev(op.rhs), w)
+    if isinstance(op, arith.ShRSIOp):
+        w = op.lhs.type.width.data
+        return bv_ashr(ev(op.lhs), ev(op.rhs), w)
+    if isinstance(op, arith.MinSIOp):
+        w = op.lhs.type.width.data
+        return min(_sgn(ev(op.lhs), w), _sgn(ev(op.rhs), w))
+    if isinstance(op, arith.MaxSIOp):
+        w = op.lhs.type.width.data
+        return max(_sgn(ev(op.lhs), w), _sgn(ev(op.rhs), w))
     if isinstance(op, memref.DimOp):
         return _RT[id(op.source)]["shape"][ev(op.index)]
     if isinstance(op, memref.ExtractAlignedPointerAsIndexOp):
@@ -281,6 +308,24 @@ def set_identity(obj, tag):
 def _sgn(a, w):
     a &= (1 << w) - 1
     return a - (1 << w) if a >> (w - 1) else a
+
+
+def bv_ashr(a, b, w):
+    m = (1 << w) - 1
+    sh = b & m
+    return (_sgn(a, w) >> min(sh, w)) & m
+
+
+def bv_sle(a, b, w):
+    return _sgn(a, w) <= _sgn(b, w)
+
+
+def bv_smin(a, b, w):
+    return (a if _sgn(a, w) <= _sgn(b, w) else b) & ((1 << w) - 1)
+
+
+def bv_smax(a, b, w):
+    return (a if _sgn(a, w) >= _sgn(b, w) else b) & ((1 << w) - 1)
 
 
 def bv_sext(a, from_w, to_w):
